@@ -844,6 +844,11 @@ class Qc:
     def __complex__(self):
         return complex(float(self.re), float(self.im))
 
+    def __format__(self, spec):
+        if self.re.c is not None and self.im.c is not None:
+            return format(complex(self), spec)
+        return '<sym>'
+
     def __repr__(self):
         return f"Qc({self.re!r}, {self.im!r})"
 
